@@ -67,6 +67,9 @@ def gen_shape(R, depth):
     return out
 
 
+R_SPACING = [1.0]
+
+
 def aspects():
     """(name, builder(breached) -> callable doing build+write; met-check on the decoded file)"""
     def base(tmp, **over):
@@ -87,6 +90,8 @@ def aspects():
             fkw = {}
             if over.get('index_type'):
                 fkw['index_type'] = over['index_type']
+            if 'spacing' in over:
+                fkw['spacing'] = over['spacing']
             lf.add_frame('FRAME', channels=chans, **fkw)
             if over.get('second_frame'):
                 c2 = lf.add_channel('C2', data=np.arange(n, dtype=np.float32))
@@ -103,6 +108,10 @@ def aspects():
         ('channel-in-no-frame', lambda t, b: base(t, unassigned=b)),
         ('channel-in-two-frames', lambda t, b: base(t, second_frame=b)),
         ('non-uniform-index', lambda t, b: base(t, index_type='BOREHOLE-DEPTH', index=[1.0, 2.0, 4.0, 8.0] if b else [1.0, 2.0, 3.0, 4.0])),
+        ('non-uniform-index-with-explicit-spacing',
+         lambda t, b: base(t, index_type='BOREHOLE-DEPTH', spacing=R_SPACING[0], index=[1.0, 2.0, 4.0, 8.0] if b else [1.0, 2.0, 3.0, 4.0])),
+        ('non-uniform-index-with-spacing-and-units',
+         lambda t, b: base(t, index_type='BOREHOLE-DEPTH', spacing={'value': 1.0, 'units': 'm'}, index=[1.0, 3.0, 4.0, 8.0] if b else [1.0, 2.0, 3.0, 4.0])),
         ('units', lambda t, b: base(t, units='furlong' if b else 'm')),
         ('index-type', lambda t, b: base(t, index_type='MY-INDEX' if b else 'BOREHOLE-DEPTH')),
         ('equipment-type', lambda t, b: base(t, eq_type='Gadget' if b else 'Tool')),
@@ -115,7 +124,7 @@ def run(tier):
     chk.rule = ('(a) every context shape up to depth 3 from a random grammar (library calls that fail, exceptions '
                 'propagating out of 1..3 levels, decorator form), flag compared with the model after every step; (b) '
                 'validate_string vs the character class for every code point < 256 in three positions + samples beyond; '
-                '(c) 11 restricted aspects x {met, breached} x {inside, outside}; (d) default file-set numbers in the mode; '
+                '(c) 13 restricted aspects x {met, breached} x {inside, outside}; (d) default file-set numbers in the mode; '
                 '(e) set_attributes on every name-like / enumerated attribute and every units-carrying attribute of every '
                 'object type (70% inside the mode), compared with the converter model; oracle: what was accepted in the mode '
                 'is over [A-Z0-9_-]+ / a value of the pinned enumeration.')
